@@ -362,10 +362,6 @@ class GriffeLoader:
                 expanded.extend(self._expand_wildcard(member))  # type: ignore[arg-type]
                 to_remove.append(member.name)
 
-            # Recurse in unseen submodules.
-            elif not member.is_alias and member.is_module and member.path not in seen:
-                self.expand_wildcards(member, external=external, seen=seen)  # type: ignore[arg-type]
-
         # Then we remove the members representing wildcard imports.
         for name in to_remove:
             # The placeholder may already have been removed by a re-entrant expansion.
@@ -420,6 +416,12 @@ class GriffeLoader:
                 # Everything went right (supposedly), we add the alias as a member of the current object.
                 obj.set_member(new_member.name, alias)
                 self.extensions.call("on_wildcard_expansion", alias=alias, loader=self)
+
+        # Lastly we recurse in unseen submodules, once the current object has all its members:
+        # a submodule can import them from its parent (with a wildcard too).
+        for member in list(obj.members.values()):
+            if not member.is_alias and member.is_module and member.path not in seen:
+                self.expand_wildcards(member, external=external, seen=seen)  # type: ignore[arg-type]
 
     def resolve_module_aliases(
         self,
